@@ -92,6 +92,19 @@ func vValsEq(t int, a, b []vVal) bool {
 }
 
 func vSymDefault(t int, tag string) vVal {
+	if vUseShortAPI > 0 {
+		// the short functions cannot hide the default in the help: keep it concrete (a
+		// symbolic one cannot be rendered by the engine)
+		switch vElemType(t) {
+		case tBool:
+			return vVal{b: vChoice(tag+".b", 2) == 1}
+		case tString:
+			return vVal{s: "d"}
+		case tInt:
+			return vVal{i: 7}
+		}
+		return vVal{f: 1.5}
+	}
 	switch vElemType(t) {
 	case tBool:
 		return vVal{b: vNondetBool(tag)}
@@ -154,9 +167,16 @@ func vDefFloats(def []vVal) []float64 {
 // vUsePtrAPI selects the XxxPtr(&v, ...) flavour of the declaration functions.
 var vUsePtrAPI bool
 
+// vUseShortAPI selects the short declaration functions XxxOpt(name, value, desc) (1) or
+// XxxOptPtr(&v, name, value, desc) (2): no environment variable, no SetByUser.
+var vUseShortAPI int
+
 // vDeclareTyped declares one option (-x/--xx) or argument (X) of type t and returns a
 // reader of its current value as a list.
 func vDeclareTyped(app *Cli, t int, asOpt bool, def []vVal, env string, user *bool) func() []vVal {
+	if vUseShortAPI > 0 {
+		return vDeclareTypedShort(app, t, asOpt, def, vUseShortAPI == 2)
+	}
 	if vUsePtrAPI {
 		return vDeclareTypedPtr(app, t, asOpt, def, env, user)
 	}
@@ -301,6 +321,10 @@ func H_prec() {
 	t := vParamInt("type")
 	asOpt := vParamInt("opt") == 1
 	vUsePtrAPI = vParamInt("ptr") == 1
+	vUseShortAPI = 0
+	if vParamInt("ptr") >= 2 {
+		vUseShortAPI = vParamInt("ptr") - 1
+	}
 	sibling := vParamInt("sibling") == 1 // a second parameter of the same type declared with the same default slice
 	vShareDefaults = sibling
 	vSharedStrings, vSharedInts, vSharedFloats = nil, nil, nil
@@ -621,6 +645,130 @@ func vDeclareTypedPtr(app *Cli, t int, asOpt bool, def []vVal, env string, user 
 			app.Floats64Ptr(p, Floats64Opt{Name: "x xx", Value: d, EnvVar: env, SetByUser: user, HideValue: true})
 		} else {
 			app.Floats64Ptr(p, Floats64Arg{Name: "X", Value: d, EnvVar: env, SetByUser: user, HideValue: true})
+		}
+		return func() []vVal {
+			var out []vVal
+			for _, f := range *p {
+				out = append(out, vVal{f: f})
+			}
+			return out
+		}
+	}
+	return nil
+}
+
+// vDeclareTypedShort: the same through BoolOpt(name, value, desc), BoolOptPtr(&v, ...),
+// BoolArg(...), ... (28 functions).
+func vDeclareTypedShort(app *Cli, t int, asOpt bool, def []vVal, ptr bool) func() []vVal {
+	name := "X"
+	if asOpt {
+		name = "x xx"
+	}
+	switch t {
+	case tBool:
+		p := new(bool)
+		switch {
+		case asOpt && ptr:
+			app.BoolOptPtr(p, name, def[0].b, "")
+		case asOpt:
+			p = app.BoolOpt(name, def[0].b, "")
+		case ptr:
+			app.BoolArgPtr(p, name, def[0].b, "")
+		default:
+			p = app.BoolArg(name, def[0].b, "")
+		}
+		return func() []vVal { return []vVal{{b: *p}} }
+	case tString:
+		p := new(string)
+		switch {
+		case asOpt && ptr:
+			app.StringOptPtr(p, name, def[0].s, "")
+		case asOpt:
+			p = app.StringOpt(name, def[0].s, "")
+		case ptr:
+			app.StringArgPtr(p, name, def[0].s, "")
+		default:
+			p = app.StringArg(name, def[0].s, "")
+		}
+		return func() []vVal { return []vVal{{s: *p}} }
+	case tInt:
+		p := new(int)
+		switch {
+		case asOpt && ptr:
+			app.IntOptPtr(p, name, def[0].i, "")
+		case asOpt:
+			p = app.IntOpt(name, def[0].i, "")
+		case ptr:
+			app.IntArgPtr(p, name, def[0].i, "")
+		default:
+			p = app.IntArg(name, def[0].i, "")
+		}
+		return func() []vVal { return []vVal{{i: *p}} }
+	case tFloat:
+		p := new(float64)
+		switch {
+		case asOpt && ptr:
+			app.Float64OptPtr(p, name, def[0].f, "")
+		case asOpt:
+			p = app.Float64Opt(name, def[0].f, "")
+		case ptr:
+			app.Float64ArgPtr(p, name, def[0].f, "")
+		default:
+			p = app.Float64Arg(name, def[0].f, "")
+		}
+		return func() []vVal { return []vVal{{f: *p}} }
+	case tStrings:
+		d := vDefStrings(def)
+		p := new([]string)
+		switch {
+		case asOpt && ptr:
+			app.StringsOptPtr(p, name, d, "")
+		case asOpt:
+			p = app.StringsOpt(name, d, "")
+		case ptr:
+			app.StringsArgPtr(p, name, d, "")
+		default:
+			p = app.StringsArg(name, d, "")
+		}
+		return func() []vVal {
+			var out []vVal
+			for _, s := range *p {
+				out = append(out, vVal{s: s})
+			}
+			return out
+		}
+	case tInts:
+		d := vDefInts(def)
+		p := new([]int)
+		switch {
+		case asOpt && ptr:
+			app.IntsOptPtr(p, name, d, "")
+		case asOpt:
+			p = app.IntsOpt(name, d, "")
+		case ptr:
+			app.IntsArgPtr(p, name, d, "")
+		default:
+			p = app.IntsArg(name, d, "")
+		}
+		return func() []vVal {
+			var out []vVal
+			for _, i := range *p {
+				out = append(out, vVal{i: i})
+			}
+			return out
+		}
+	case tFloats:
+		d := vDefFloats(def)
+		p := new([]float64)
+		switch {
+		case asOpt && ptr:
+			app.Floats64OptPtr(p, name, d, "")
+		case asOpt:
+			p = app.Floats64Opt(name, d, "")
+		case ptr:
+			app.Floats64ArgPtr(p, name, d, "")
+		default:
+			p = app.Floats64Arg(name, d, "")
 		}
 		return func() []vVal {
 			var out []vVal
